@@ -8,9 +8,12 @@
    newlines, `readline`, and the part of `Spectrum.__new__` that the readers and the unpickler use (label count check,
    `mask_corners`).
 
-   The WRITERS (`to_file`, `array_to_file`), the gzip/plain open modes and the pickle reduce tuple / unpickler call are
-   not written here: they are regenerated from the current source into Generated/FileIO.lean (tools/gen_FileIO.py) in
-   terms of the primitives below (`fmtI`, `fmtD`, `strip`, `savetxtRow`, `tofileSep`, `construct`, `get*`). -/
+   The WRITERS (`to_file`, `array_to_file`), the READERS (`from_file`, `array_from_file`), the gzip/plain open dispatch and
+   the pickle reduce tuple / unpickler call are not written here: they are regenerated from the current source into
+   Generated/FileIO.lean (tools/gen_FileIO.py) in terms of the primitives below (`fmtI`, `fmtD`, `strip`, `savetxtRow`,
+   `tofileSep`, `readline`, `whileStartsWith`, `whileNotInAppendInt`, `fromstring`, `reshape`, `construct`, `get*`).
+   `fromFileSpec` / `arrayFromFileSpec` below are hand-written NORMAL FORMS of the readers; Props/C14.lean proves the
+   generated readers equal to them. -/
 namespace DadiVerif.FileFormat
 
 abbrev Str := List Char
